@@ -49,6 +49,8 @@ def generate(prop, seed, tier):
         G.add_diag_terminal(spec, g, 'unit' if menu == 'unit' else 'small')
     if g.random() < 0.3:
         G.add_closure_nt(spec, g, 'unit' if menu == 'unit' else 'small')
+    if g.random() < 0.3:
+        G.constant_factors(spec, g)
     method = g.choice(['fixed-point', 'fixed-point', 'newton', 'newton', 'linear'])
     return {'engine': 'solver', 'prop': prop, 'seed': seed, 'spec': spec, 'semiring': sem, 'method': method,
             'tol': g.choice([1e-3, 1e-5, 1e-7, 1e-7, 0.0]), 'kmax_mode': g.choice(['0', '1', '2', 'K-1', 'K', 'K+5', '1000', '1000', '1000']),
